@@ -30,3 +30,21 @@ def _make(tag):
 
 TagAPlugin = _make("A")
 TagBPlugin = _make("B")
+
+
+class HideInternalPlugin(Plugin):
+    """process_schema removes every field / argument whose name starts with `internal` (C17: operations are validated against the
+    schema the plugins hand back)."""
+
+    def process_schema(self, schema):
+        from graphql import build_schema, print_schema
+        sdl = "\n".join(line for line in print_schema(schema).splitlines() if "internal" not in line)
+        return build_schema(sdl)
+
+
+class AddFieldPlugin(Plugin):
+    """process_schema adds Query.addedByPlugin: an operation selecting it is valid for the processed schema only."""
+
+    def process_schema(self, schema):
+        from graphql import extend_schema, parse
+        return extend_schema(schema, parse("extend type Query { addedByPlugin: Int }"))
